@@ -126,3 +126,68 @@ def index_presentation(idx):
     if len(idx) >= 1 and list(idx) == list(range(idx[0], idx[0] + len(idx))):
         kinds.append("range")
     return st.sampled_from(kinds)
+
+
+@st.composite
+def embedded(draw, A, p_big_min=9, p_big_max=12):
+    """Relabel the nodes of the (small) graph A injectively into 0..p_big-1 (the other
+    nodes stay isolated).  Label-dependent code - e.g. anything iterating a Python set of
+    node indices, whose iteration order stops being sorted from label 8 on - only shows
+    on such graphs, while brute-force oracles stay cheap because the edge count is small."""
+    p = len(A)
+    p_big = draw(st.integers(max(p, p_big_min), max(p, p_big_max)))
+    lab = draw(st.permutations(list(range(p_big))))[:p]
+    B = [[0] * p_big for _ in range(p_big)]
+    for i in range(p):
+        for j in range(p):
+            if A[i][j] != 0:
+                B[lab[i]][lab[j]] = A[i][j]
+    return B
+
+
+def topo_order(A):
+    """A topological order of the digraph of non-zero entries (Kahn; input assumed acyclic)."""
+    p = len(A)
+    indeg = [sum(1 for i in range(p) if A[i][j] != 0) for j in range(p)]
+    ready = [j for j in range(p) if indeg[j] == 0]
+    out = []
+    while ready:
+        i = ready.pop()
+        out.append(i)
+        for j in range(p):
+            if A[i][j] != 0:
+                indeg[j] -= 1
+                if indeg[j] == 0:
+                    ready.append(j)
+    return out
+
+
+@st.composite
+def faithless_dag(draw, p_min=3, p_max=8):
+    """Weighted DAG (rationals, JSON form) in which, wherever a direct edge i -> k coexists
+    with other directed paths from i to k, the direct weight is minus the summed products
+    of the other paths: total effects cancel exactly (sums of path products vanish)."""
+    A = draw(dag_pattern(p_min, p_max, shapes=("dense", "complete", "random", "collider")))
+    p = len(A)
+    order = topo_order(A)
+    pos = {v: k for k, v in enumerate(order)}
+    n_edges = sum(sum(r) for r in A)
+    ws = draw(st.lists(st.sampled_from([1, -1, 2, -2, Fraction(1, 2), Fraction(-1, 2)]), min_size=n_edges, max_size=n_edges))
+    W = [[Fraction(0)] * p for _ in range(p)]
+    k = 0
+    for i in range(p):
+        for j in range(p):
+            if A[i][j]:
+                W[i][j] = Fraction(ws[k])
+                k += 1
+    T = [[Fraction(int(i == j)) for j in range(p)] for i in range(p)]      # total effects
+    for kk in order:
+        pas = sorted([i for i in range(p) if A[i][kk]], key=lambda v: -pos[v])
+        for i in pas:                                   # latest parent first
+            indirect = sum(T[i][j] * W[j][kk] for j in pas if j != i)
+            if indirect != 0:
+                W[i][kk] = -indirect
+        for a in range(p):
+            if a != kk:
+                T[a][kk] = sum(T[a][j] * W[j][kk] for j in pas)
+    return [[fstr(x) for x in row] for row in W]
